@@ -126,3 +126,9 @@ reg("C11", level="model_checking", overlay="world",
     level_text="Client pool accounting, request construction at every pool level, server cookie replenishment and key rotation all run as shipped (real TLS key exchange, real AEAD) inside a bubble; the explorer enumerates loss runs and day-scale time steps inside the bound and judges every request and reply on the wire.",
     budget={"quick": 150, "thorough": 1200}, workers={"quick": 16, "thorough": 16},
     assumptions=["SCION transport shares the request/response builders and is not run separately here", "cookies are the 124-byte cookies the project's servers issue"])
+
+reg("C10", level="exploration", overlay="world",
+    technique="exhaustive single-bit / field / truncation / key mutation of every encoded NTS request, response and cookie, judged by the real listener and client functions",
+    level_text="For every packet the project's encoder emits at pool levels 2..8 (requests), 1..7 cookies (responses) and for sealed cookies, all single-bit flips, all type/length field values from the alphabet, all truncations and key/identifier swaps are enumerated; requests are judged by the real listener (reply or not), responses and cookies by the real functions. Exhaustive over that mutation space.",
+    budget={"quick": 150, "thorough": 600}, workers={"quick": 8, "thorough": 8},
+    assumptions=["mutations are single-site", "the authenticator field's own type/length header is not covered by the AEAD and is excluded from the must-reject region (a changed type is still rejected, checked by construction)"])
